@@ -376,14 +376,20 @@ impl Job {
         let mut result = ExecutionResult::success();
 
         while let Some(task) = self.tasks.back_mut() {
-            match task.wait().await? {
-                JobTaskWaitResult::Completed(execution_result) => {
+            match task.wait().await {
+                Ok(JobTaskWaitResult::Completed(execution_result)) => {
                     result = execution_result;
                     self.tasks.pop_back();
                 }
-                JobTaskWaitResult::Stopped => {
+                Ok(JobTaskWaitResult::Stopped) => {
                     self.state = JobState::Stopped;
                     return Ok(ExecutionResult::stopped());
+                }
+                Err(err) => {
+                    // The task is over all the same (it ended with an error); it must not
+                    // be waited for again.
+                    self.tasks.pop_back();
+                    return Err(err);
                 }
             }
         }
